@@ -196,6 +196,35 @@ def contains_set(v):
     return False
 
 
+def comment_inside_tuple_key(v):
+    """a comment wrapper below the top of a dict key (an element of a tuple key): such keys are not orderable, so their place under
+    sort_dict_keys=True is decided by object identity (finding K8) and cannot be compared with the model"""
+    def has_comment(x):
+        if isinstance(x, (P._CommentedValue, P._TrailingCommentedValue)):
+            return True
+        if isinstance(x, (list, tuple, set, frozenset)):
+            return any(has_comment(y) for y in x)
+        if isinstance(x, dict):
+            return any(has_comment(a) or has_comment(b) for a, b in x.items())
+        return False
+
+    def walk(x):
+        while isinstance(x, (P._CommentedValue, P._TrailingCommentedValue)):
+            x = x.value
+        if isinstance(x, dict):
+            for k, y in x.items():
+                k0 = k
+                while isinstance(k0, (P._CommentedValue, P._TrailingCommentedValue)):
+                    k0 = k0.value
+                if has_comment(k0) or walk(k0) or walk(y):
+                    return True
+            return False
+        if isinstance(x, (list, tuple, set, frozenset)):
+            return any(walk(y) for y in x)
+        return False
+    return walk(v)
+
+
 def has_trailing_on_empty_dict_subclass(v):
     """does the value contain trailing_comment(x, non-empty text) with x an empty instance of a proper dict subclass?  (finding K7)"""
     found = [False]
@@ -418,10 +447,22 @@ def comments_section(tier, seed, mode='c09'):
                 for cv in (pp.comment(inst, text), pp.trailing_comment(inst, text), [pp.trailing_comment(inst, text), 1],
                            {'k': pp.comment(inst, text)}, pp.comment(pp.trailing_comment(inst, text), 'both')):
                     cases.append((cv, narrow))
+    # sorted dicts whose keys carry comments: the entry stays in its sorted place (F20)
+    sorted_sets = [(4, w, w, None, 1000, 1) for w in (1, 20, 79)]
+    for keys in ((2, 1), ('b', 'a', 'c'), (2.5, 1, 3), ((2, 1), (1, 2))):
+        for text in ('c', 'w1\nw2'):
+            for j in range(len(keys)):
+                d = {}
+                for i, k in enumerate(keys):
+                    d[pp.comment(k, text) if i == j else k] = i
+                cases.append((d, sorted_sets))
+                cases.append(([d, {pp.trailing_comment(keys[0], text): pp.comment(1, text), keys[1]: 2}], sorted_sets))
     n_rand = 1200 if tier == 'quick' else 15000
     for _ in range(n_rand):
         v = add_comments(rng, V.rand_value(rng, budget=rng.choice([5, 10, 20, 40])), rng.choice([0.15, 0.3, 0.6]))
-        cases.append((v, settings_for(rng, v, 'quick')[::2]))
+        plain = V.strip_comments(v)
+        sorts = (0, 1) if sortable(plain) and not comment_inside_tuple_key(v) and rng.random() < 0.5 else (0,)
+        cases.append((v, settings_for(rng, v, 'quick', sorts)[::2]))
     tot, nt, mism, fails = run_cases(cases, mode)
     stats = {'evaluations': tot, 'distinct_nontrivial': nt, 'placements': len(cases) - n_rand, 'random_values': n_rand,
              'mismatches': len(mism),
